@@ -23,6 +23,9 @@ from ..cfg import must_facts, holds, canon_fact
 from ..rules import event_facts, node_calls
 from ..mutate import mutate, remove_stmts, replace_expr, replace_stmt, parse_stmt, parse_expr
 from ..model import AnalysisError
+from ..x_syncnorm import normalized
+
+NORM_MODULES = ("tornado/locks.py", "tornado/queues.py", "tornado/gen.py", "tornado/concurrent.py", "tornado/ioloop.py", "tornado/platform/asyncio.py")
 from fractions import Fraction
 from .. import x_tdeval as tdeval
 from ..x_sync import check_none_tests, resolve_local, own_walk, own_find, node_counts, method_call_on, exit_states, reaches, handler_catches_cancel
@@ -538,6 +541,7 @@ def check_none(ck):
 
 
 def run(ck):
+    ck.repo = normalized(ck.repo, NORM_MODULES)  # alias / named-boolean / temporary / setter-helper normalisation (vt/x_syncnorm.py)
     ck.rule("C38.wrapped", "add_callback / call_at / add_callback_from_signal hand asyncio self._run_callback + functools.partial(callback, *args, **kwargs); spawn_callback delegates to add_callback")
     ck.rule("C38.run-callback", "_run_callback runs the callback under non-re-raising handlers for CancelledError and Exception (logged with traceback) and watches a returned awaitable through add_future(ret, _discard_future_result)")
     ck.rule("C38.thread-safe", "add_callback uses plain call_soon only when the running loop is this loop; every other path (other loop, no loop) uses call_soon_threadsafe; exactly one scheduling call")
